@@ -977,6 +977,8 @@ postfixexpr(struct scope *s, struct expr *r)
 			if (r->type->kind != TYPEPOINTER || r->type->base->kind != TYPEFUNC)
 				error(&tok.loc, "called object is not a function");
 			t = r->type->base;
+			if (t->base->incomplete && t->base->kind != TYPEVOID)
+				error(&tok.loc, "called function has incomplete return type");
 			e = mkexpr(EXPRCALL, t->base, r);
 			e->u.call.args = NULL;
 			e->u.call.nargs = 0;
@@ -987,6 +989,8 @@ postfixexpr(struct scope *s, struct expr *r)
 					expect(TCOMMA, "or ')' after function call argument");
 				if (!p && !t->u.func.isvararg)
 					error(&tok.loc, "too many arguments for function call");
+				if (p && p->type->incomplete)
+					error(&tok.loc, "argument for parameter with incomplete type");
 				*end = assignexpr(s);
 				if (t->u.func.isvararg && !p)
 					*end = exprpromote(*end);
